@@ -29,6 +29,9 @@ const Rule = "cases = (implementation, hash function, HashOpts, shuffle seed, hi
 	"capacities next to powers of two and prime squares, load-factor bounds at the edges, churn of hundreds of operations with a small live set under every hash shape; " +
 	"productions / lrtable with 17 / 65 / 257 (thorough: 16 .. 1025) distinct keys and rows of n/4+17 symbols; component firstfollow (ORACLE ONLY, not run on the Model: " +
 	"ComputeFIRST / ComputeFOLLOW of grammars with that many non-terminals must return within 30 s with the sets the grammar has by construction; counted as oracle_only_cases); " +
+	"second round (generators of C02, probe counts bounded): key / value types other than int, every pair of a 6 x 5 grid of load-factor bounds (min > max/2 included) x {mod 3, constant} x a " +
+	"grow-then-shrink walk with probe counts after every step, every entry count 0..200 with the probe counts of all keys at every step, walks through the capacity graph past the prime squares " +
+	"11^2 .. 101^2 with every key colliding (oracle only above 2000 slots, run.Huge()), tables of 10^6 entries (oracle only, run.Huge()); " +
 	"distinct = distinct (header, op list)"
 
 var mode = c02.Mode{ProbeBound: true, Watchdog: 2 * time.Second}
